@@ -31,7 +31,8 @@ def observe(kind, batch):
 
 def run(scn):
     kind = scn['kind']
-    batch = pjrpc.BatchRequest() if kind == 'breq' else pjrpc.BatchResponse()
+    strict = scn.get('strict', True)
+    batch = pjrpc.BatchRequest(strict=strict) if kind == 'breq' else pjrpc.BatchResponse(strict=strict)
     ev, n = [], 0
     for op in scn['hist']:
         msgs = []
